@@ -46,6 +46,7 @@ func main() {
 	runSymbols()
 	runGrayRows()
 	runValleyTies()
+	runWideGrayRows()
 	runBinHistories()
 	runBitmapViews()
 	chk.Finish()
@@ -232,6 +233,11 @@ func replay(path string) {
 		mc.LoadReplay(path, &c)
 		fmt.Printf("replay grey row %v (%s, %s)\n", c.Row, c.Source, c.Bin)
 		grayRowOne(l, c)
+	case "widegray":
+		var c wideGrayCase
+		mc.LoadReplay(path, &c)
+		fmt.Printf("replay wide grey row %+v\n", c)
+		wideGrayOne(l, c)
 	case "bitmapview":
 		var c bvCase
 		mc.LoadReplay(path, &c)
